@@ -22,6 +22,15 @@ NOT_APPLICABLE = {
 }
 
 REGISTRY = {
+    "C17": {
+        "modules": ["c17"],
+        "level_text": "Contracts on the real per-slot scoring kernels (extracted to C each run): StepGatherExecutor<pre> and <post> write, for the slot, exactly the selected attributes with the track's values iff the step is delivered (active track, detector volume, non-zero-deposit filter), set/clear the detector id and null the track id of inactive slots, and touch nothing else (unselected attributes, the other step point, other slots); SimpleCaloExecutor adds the delivered deposit to its detector's tally exactly once and leaves every other tally alone. All selections, detector maps and slot states, discharged by CBMC. Delivery 'exactly once to every registered callback' is host std::vector code and is not decided.",
+        "level_note": "Trusted: CBMC/dfcc/SAT+cvc5; extraction rules; view accessors as plain reads; Real3 attributes abstracted to one component; atomics sequential. Not decided: StepGatherAction callback loop, StepParams construction (merge of selections/filters over callbacks), DetectorSteps copy, Action/StepDiagnostic executors (planned).",
+        "design_ref": "DESIGN.md 4 C17",
+        "trusted_base": [],
+        "assumptions": [],
+        "not_decided": ["each step delivered exactly once to every registered callback (host loop)", "StepParams merge of selections and filters over several callbacks (host)", "DetectorSteps.cc copy_steps", "ActionDiagnosticExecutor / StepDiagnosticExecutor counts"],
+    },
     "C14": {
         "modules": ["c14", "c18", "c01"],
         "select": r"^c14_|^c18_ug_|^c18_from_bounds|^c01_calc_mean|^c01_mean_eloss",
